@@ -27,7 +27,8 @@ func init() {
 			"R7: the lease renewal writes only by CasByVersion. R8: an attempt that ran its failure epilogue (token given back) cannot report success. " +
 			"R6: a tenure issues at most one Delete (a by-key delete repeated after a lost reply removes a successor's record). L2: the lease renewal does not run under the context of the acquisition call (that context normally ends right after the call returned; every renewal would fail and the record lapse under the holder). " +
 			"L3: every acquisition arms its first renewal with this Create's version and a period of lease/k, k>=2 (a renewal due at the end of the lease finds the record expired, the chain ends and a second caller creates the record under the live holder). " +
-			"L4: what runs on the renewal timer's goroutine never cancels a timer it has read from the Locker's timer slot - the slot is per Locker object, a renewal of a finished tenure that is still in flight would cancel the live timer of the next tenure, whose record then lapses under its holder; it may cancel only a timer it armed itself.",
+			"L4: what runs on the renewal timer's goroutine never cancels a timer it has read from the Locker's timer slot - the slot is per Locker object, a renewal of a finished tenure that is still in flight would cancel the live timer of the next tenure, whose record then lapses under its holder; it may cancel only a timer it armed itself. " +
+			"S3: every record the in-memory storage writes gets a fresh ulidutils.NewID() version drawn under the generator's lock (the renewal CAS tells tenures apart by the version alone; a counter that restarts with the record lets a stale renewal of the previous tenure hit the next one). T1-T8: the timer package's index/cancel rules of C12 (a Cancel issued through a stale or recycled future object removes another lock's renewal timer, whose lease then runs out under its holder).",
 		NotDecided: "exclusion itself over interleavings and fault placements (needs C02 for the storage and the lease assumption).",
 	})
 	register(&Check{
@@ -706,6 +707,18 @@ func runC01(c *Ctx) {
 	im := resolveInmemRoles(c)
 	c.inmemCriticalSections(im, "C01.S1")
 	c.inmemClassEdges(im, "C01.S2", "")
+	// S3: the renewal CAS tells the tenures of one lock name apart by the record version only ("a stale timer of a previous
+	// tenure can never touch a newer record"): every record the storage writes gets a version no earlier record of the key
+	// had - a per-record counter restarts when the record is deleted and re-created, tenure 2 starts at the version tenure
+	// 1 started at, a renewal of tenure 1 still in flight renews (and re-versions) the record of tenure 2, whose own
+	// renewal then meets a conflict and stops: the record lapses under the holder
+	c.inmemFreshVersions(im, "C01.S3")
+	c.idGenerator("C01.S3")
+	// T: the lease timers. Unlock cancels the timer object it finds in the Locker's slot; that this can only ever be a
+	// timer armed for this Locker (and, once fired, a dead object) is the timer package's index/cancel discipline and its
+	// "Call hands out a fresh object" rule (C12): a recycled future makes a late Cancel hit the live renewal timer of
+	// another lock, whose lease then runs out under its holder
+	timerRules(c, "C01.T")
 }
 
 // recordArgCell returns the local cell a record argument (load of an alloc) was read from.
